@@ -19,4 +19,7 @@ func init() {
 	setProp("C17", "DESIGN.md §4 C17",
 		"Decides: snapToGridFloat64 can only return its input, a constant, Round(input) or a value proven neither Inf (both signs) nor NaN; no division by the distance of two control points without a zero guard.",
 		"the geometric contracts of Densify/Simplify (gap bound, subsequence, tolerance), arc-length fractions, idempotence and oddness of SnapToGrid.")
+	setProp("C19", "DESIGN.md §4 C19",
+		"Decides: dimensional homogeneity in the earth radius of all 18 Forward/Reverse bodies (so inversion for R=1 implies inversion for every R), the zero guard of the removable singularity at the projection centre, and atan2-based longitude recovery for projections with a settable centre.",
+		"that the formulas are the right projection, their equal-area/conformal/equidistant character (needs calculus on the formulas, another technique family), numeric accuracy of the inverse.")
 }
